@@ -73,6 +73,26 @@ def is_int(v):
     return (isinstance(v, int) and not isinstance(v, bool)) or is_symint(v) or isinstance(v, bool)
 
 
+def concrete_val(i):
+    k = i.get('val_kind')
+    if k == 'None':
+        return None
+    if k == 'int':
+        return i['val']
+    if k == 'bytes':
+        return bytes.fromhex(i['val']['hex'])
+    if k == 'str':
+        try:
+            return bytes.fromhex(i['val_utf8']['hex']).decode('utf-8')
+        except Exception:      # noqa   (the model's bytes need not be valid utf-8: use a text of the same shape)
+            n, u = i['val_chars'], len(i['val_utf8']['hex']) // 2
+            extra = u - n
+            return '\u00e9' * min(extra, n) + 'a' * max(0, n - extra)
+    if k == 'text':
+        return 'text'
+    return {'True': True, 'False': False}[k]
+
+
 # ----------------------------------------------------------------------------- UintField
 def uint_w(self_, val):
     fl = A(self_, 'fixed_len')
@@ -86,6 +106,24 @@ class _UintBase(Contract):
         fl = cx.run.choose([(x, True) for x in (None, 1, 2, 4, 8)], 'fixed_len')
         cx.run.input_const('fixed_len', fl)
         return mk_field(cx, tm.UintField, fixed_len=fl, val_base_type=int)
+
+    @staticmethod
+    def real_field(i):
+        f = tm.UintField(i['type_num'], fixed_len=i['fixed_len'])
+        f.name = 'F'
+        return f
+
+    def build(self, i):
+        f = self.real_field(i)
+        name = self.fn.__name__
+        if name == 'encoded_length':
+            return (f, concrete_val(i), {}), {}
+        if name == 'encode_into':
+            m = {}
+            v = concrete_val(i)
+            f.encoded_length(v, m)
+            return (f, v, m, memoryview(bytearray.fromhex(i['wire']['hex'])), i['offset']), {}
+        return (f, None, {}, bytes.fromhex(i['wire']['hex']), i['offset'], i['length'], i['offset_btl']), {}
 
 
 @contract
